@@ -284,6 +284,23 @@ impl Dfa {
         d.init = q;
         d.minimize()
     }
+    /// for every state: can an accepting state be reached from it? (backward fixpoint, no minimisation)
+    pub fn live_states(&self) -> Vec<bool> {
+        let n = self.n();
+        let mut live = self.acc.clone();
+        loop {
+            let mut changed = false;
+            for q in 0..n {
+                if !live[q] && (0..self.k).any(|x| live[self.step(q, x)]) {
+                    live[q] = true;
+                    changed = true;
+                }
+            }
+            if !changed {
+                return live;
+            }
+        }
+    }
     /// a shortest accepted word, if any (BFS)
     pub fn shortest_word(&self) -> Option<Vec<usize>> {
         let mut prev: Vec<Option<(usize, usize)>> = vec![None; self.n()];
